@@ -16,6 +16,13 @@ E3_RV = {"test": "TestE3RequestVote",
          "env": {"quick": {"VERIF_STRIDE": 16}, "thorough": {"VERIF_STRIDE": 1}},
          "shards": {"quick": 1, "thorough": 1}}
 
+E1_CODEC = {"test": "TestE1Codec", "env": {"quick": {"VERIF_N": 4000}, "thorough": {"VERIF_N": 60000}},
+            "shards": {"quick": 1, "thorough": 8}}
+E2_LOG = {"test": "TestE2LogCrash", "env": {"quick": {"VERIF_SCRIPTS": 8, "VERIF_OPS": 7}, "thorough": {"VERIF_SCRIPTS": 24, "VERIF_OPS": 10}},
+          "shards": {"quick": 2, "thorough": 16}}
+E2_SS = {"test": "TestE2StateSnapCrash", "env": {"quick": {"VERIF_SCRIPTS": 10, "VERIF_OPS": 9}, "thorough": {"VERIF_SCRIPTS": 40, "VERIF_OPS": 14, "VERIF_MAXCUT": 24}},
+         "shards": {"quick": 2, "thorough": 16}}
+
 PROPS = {
     "C06": {
         "level": "proof",
@@ -31,5 +38,29 @@ PROPS = {
         "engines": [E3_RV, E3_AE],
         "explanation": "Handler-level theorems for every voter state and every RequestVote request (term monotone, prevote pure, vote only for up-to-date logs, granted vote recorded and persisted before the reply, never a second vote in a term) and the sequence theorem C08_one_vote_per_term over all finite stimulus sequences (RequestVote/AppendEntries with arbitrary fields, each completed or cut by a crash after any number of its storage effects, then restart). Tie: exhaustive bounded domain of the property run on the real handler over real storage against the model, storage-effect order included.",
         "assumptions": ["candidate ids are non-empty strings", "restart reads back exactly the last completed SetState (C13)"],
+    },
+    "C12": {
+        "level": "proof",
+        "lean_modules": ["RaftVerif.Properties.C12"],
+        "engines": [E2_LOG],
+        "explanation": "Theorems over the byte-level model of log.bin with the real record codec: after a crash that left ANY byte prefix of an in-flight append, Replay succeeds, returns all entries of returned operations plus a prefix of the in-flight ones intact, and its truncation point restores a file of complete records (so the guarantee holds again for every further operation and reopen cycle); complete files read back exactly; Truncate cuts exactly at record boundaries given correct offsets, Append keeps offsets correct. Tie: operation scripts run on the real log under strace; crash images synthesised from the observed syscalls at every syscall boundary and every byte inside every write; each recovered with the real NewLog+Open+Replay and compared with the sequential specification, with the Lean replay of the same bytes, and exercised again (append+reopen); the syscall program and the bytes of every operation are compared with the model's.",
+        "assumptions": ["process-crash model: completed syscalls persist, a write may be cut at any byte, rename/ftruncate atomic; power loss is outside (the fsync before append returns is checked as part of the program shape)",
+                        "entries have 64-bit fields and bodies below 2^31 bytes"],
+    },
+    "C13": {
+        "level": "proof",
+        "lean_modules": ["RaftVerif.Properties.C13"],
+        "engines": [E2_SS],
+        "explanation": "Theorems over the file-system model: at every crash point of SetState (after any call, at any byte inside either write) state.bin is the old file or the complete new record, and a reopen reads the last completed or the in-flight value and never fails; in the snapshot directory model only Close makes a snapshot visible, with its complete content, and a reopen drops every open writer. Tie: scripts of SetState / NewSnapshotFile+Write+Close|Discard (overlapping writers, 0..70000 B) on the real storages under strace; crash images at every syscall and sampled bytes; the real constructors, State(), SnapshotFile() and NewRaft run on every image; the syscall program of every operation compared with the model's.",
+        "assumptions": ["process-crash model as for C12", "snapshot directory names order by creation time (S10): 'most recent' is judged by close order in the oracle, a divergence would be reported with signature overlapping-writers-older-closed-returned",
+                        "sort.Slice under the code's always-false comparator keeps ReadDir's lexicographic order (S11), re-checked on every image"],
+    },
+    "C19": {
+        "level": "proof",
+        "lean_modules": ["RaftVerif.Properties.C19"],
+        "engines": [E1_CODEC],
+        "explanation": "Byte-level theorems: varints, length-prefixed records, log record (incl. offset and entry type 2), term/vote record, and the RPC messages AppendEntriesResponse, RequestVoteRequest/Response, InstallSnapshotRequest/Response decode to what was encoded for all 64-bit field values and payload lengths. Tie: byte-exact agreement of the model's encoders with proto.Marshal as used by the real converters, of its decoders with proto.Unmarshal, on generated values (0/1/127/128/2^32+-1/2^63/2^64-1, nil/empty/1 B/128 B/KB/non-UTF-8 payloads, non-ASCII ids, 0-7 entries of all three types) and on every truncation of sampled encodings; the property's own round-trip statement evaluated on the real code for every value (also Configuration and snapshot metadata).",
+        "assumptions": ["AppendEntriesRequest with repeated entries, Configuration (proto maps) and JSON metadata are covered by the differential engine and the implementation-side round-trip oracle, not yet by a Lean theorem",
+                        "gRPC framing and the 4 MiB message limit are outside the model (a transport error is non-delivery, not corruption)"],
     },
 }
